@@ -177,6 +177,7 @@ structure Q.Inv (q : Q) : Prop where
 /-! ## worker: the joining thread, the worker thread, anybody signalling stop -/
 
 inductive WAct
+  | creator                       -- the thread inside `async_worker_create` takes its next step
   | thread (procReturns : Bool)   -- the worker thread takes a step; inside `proc` the scheduler decides whether it returns
   | ctl                           -- the thread inside `async_worker_join(w, t)` takes a step
   | stop                          -- somebody calls `async_worker_signal_stop`
@@ -184,16 +185,22 @@ inductive WAct
 
 structure WSys where
   w : Wk
+  creator : List CrAct     -- what `async_worker_create` still has to do
   t : Nat                  -- timeout of the join, ms
   pc : JoinPc := .loop 0
   work : Nat := 0          -- ghost: steps the joining thread has executed
   deriving Repr, DecidableEq
 
 def WSys.step (s : WSys) : WAct → WSys
+  | .creator =>
+    match s.creator with
+    | [] => s
+    | a :: rest => { s with w := s.w.crStep a, creator := rest }
   | .thread b => { s with w := s.w.threadStep b }
   | .stop => { s with w := s.w.signalStop }
   | .ctl =>
-    match s.pc with
+    if s.creator ≠ [] then s        -- nobody can join before `async_worker_create` has returned the handle
+    else match s.pc with
     | .done _ => s
     | pc => match s.w.joinStep s.t pc with
       | none => s                                  -- blocked in pthread_join
@@ -201,11 +208,16 @@ def WSys.step (s : WSys) : WAct → WSys
 
 def WSys.run (s : WSys) (acts : List WAct) : WSys := acts.foldl WSys.step s
 
-/-- a join with timeout `t` that starts at ANY moment after `async_worker_create` returned: `pre` is what
-    happened before the join started -/
-def WSys.start (t : Nat) (pre : List WAct) : WSys :=
-  let s0 : WSys := { w := Wk.create, t, pc := .done false }     -- nobody is joining yet
-  { (s0.run pre) with pc := .loop 0, work := 0 }
+/-- a worker being created by program `prog`, nobody joining yet -/
+def WSys.fresh (prog : List CrAct) (t : Nat) : WSys := { w := {}, creator := prog, t, pc := .done false }
+
+/-- a join with timeout `t` whose call is issued at ANY moment: `pre` is what happened before (steps of the creator,
+    of the new thread, stop signals); the join itself begins once `async_worker_create` has returned -/
+def WSys.startWith (prog : List CrAct) (t : Nat) (pre : List WAct) : WSys :=
+  { ((WSys.fresh prog t).run pre) with pc := .loop 0, work := 0 }
+
+/-- …for `async_worker_create` as the source has it -/
+def WSys.start (t : Nat) (pre : List WAct) : WSys := WSys.startWith createProg t pre
 
 /-! ## timer: the timer thread and the thread calling `platform_timer_stop` -/
 
